@@ -90,6 +90,8 @@ def values_at(axis, level, n):
         out = [[{'mods': ml, 'targets': t}] for ml in mls for t in tg]
         if level <= 2:
             out.append([{'mods': [['Oxidation', 1]], 'targets': ['M']}, {'mods': [['1.5', 1]], 'targets': ['K']}])
+            out.append([{'mods': [['Oxidation', 1]], 'targets': ['S', 'K']}, {'mods': [['1.5', 1]], 'targets': ['K']}])
+            out.append([{'mods': [['Formula:C2H2O', 1]], 'targets': ['E', 'P', 'N-Term']}, {'mods': [['10', 1]], 'targets': ['P', 'N-Term']}])
         return out
     if axis == 'iv':
         mls = modlists(2) if level <= 2 else modlists(3)[:3]
